@@ -30,6 +30,7 @@ pub fn run(name : &str, ctx : &Ctx, out : &mut Out) -> bool
         "swap" => hist::swap(ctx, out),
         "sched" => sched::schedules(ctx, out),
         "crash" => crash::crashes(ctx, out),
+        "crash_coarse" => crash::crashes_coarse(ctx, out),
         _ => return false,
     }
     true
